@@ -227,3 +227,47 @@ Proof.
   replace (r1 * DEC / r0 <? d1 * DEC / d0 * (DEC - t) / DEC) with false by (symmetry; apply Z.ltb_ge; lia).
   reflexivity.
 Qed.
+
+(* ---- liquidity slippage tolerance, stableswap pools ---------------------------------------------------------- *)
+Definition stable_tol_bound (t dep_total pool_total amount supply : Z) : Prop :=
+  ratio pool_total supply * (DEC - t) / DEC <= ratio dep_total amount.
+
+Lemma stable_tolerance_sound t dt pt amount supply :
+  assert_slippage_stable (Some t) dt pt amount supply = Ok tt ->
+  t <= DEC /\ supply <> 0 /\ amount <> 0 /\ stable_tol_bound t dt pt amount supply.
+Proof.
+  unfold assert_slippage_stable, dec_from_ratio, dec_mul, stable_tol_bound, ratio.
+  destruct (DEC <? t) eqn:Et; [discriminate|]. apply Z.ltb_ge in Et.
+  destruct (supply =? 0) eqn:Es; cbn [bind]; [discriminate|]. apply Z.eqb_neq in Es.
+  destruct (pt * DEC / supply <? P256); cbn [bind]; [|discriminate].
+  destruct (amount =? 0) eqn:Ea; cbn [bind]; [discriminate|]. apply Z.eqb_neq in Ea.
+  destruct (dt * DEC / amount <? P256); cbn [bind]; [|discriminate].
+  destruct (pt * DEC / supply * (DEC - t) / DEC <? P256); cbn [bind]; [|discriminate].
+  destruct (dt * DEC / amount <? pt * DEC / supply * (DEC - t) / DEC) eqn:E1; [discriminate|].
+  intros _. apply Z.ltb_ge in E1. auto.
+Qed.
+
+Lemma stable_tolerance_gt_one_rejected t dt pt amount supply : DEC < t ->
+  assert_slippage_stable (Some t) dt pt amount supply = Err E_OTHER.
+Proof. intro H. unfold assert_slippage_stable. replace (DEC <? t) with true by (symmetry; apply Z.ltb_lt; lia). reflexivity. Qed.
+
+Lemma stable_tolerance_complete t dt pt amount supply :
+  0 <= t <= DEC -> 0 <= dt < 4 * P128 -> 0 <= pt < 4 * P128 -> 0 < amount < P128 -> 0 < supply < P128 ->
+  stable_tol_bound t dt pt amount supply -> assert_slippage_stable (Some t) dt pt amount supply = Ok tt.
+Proof.
+  intros Ht Hd Hp Ha Hs B. unfold stable_tol_bound, ratio in B.
+  unfold assert_slippage_stable, dec_from_ratio, dec_mul.
+  replace (DEC <? t) with false by (symmetry; apply Z.ltb_ge; lia).
+  pose proof DEC_pos as HD. assert (HPD : 4 * P128 * DEC < P256) by reflexivity. assert (0 < P256) by reflexivity.
+  assert (Hb : forall a b, 0 <= a < 4 * P128 -> 0 < b < P128 -> 0 <= a * DEC / b < P256).
+  { intros a b Ha' Hb'. split. apply Z.div_pos; nia. apply Z.div_lt_upper_bound; [lia|]. assert (a * DEC < P256) by nia. nia. }
+  assert (Hm : forall q, 0 <= q < P256 -> 0 <= q * (DEC - t) / DEC < P256).
+  { intros q Hq. split. apply Z.div_pos; nia. apply Z.div_lt_upper_bound; nia. }
+  replace (supply =? 0) with false by (symmetry; apply Z.eqb_neq; lia).
+  replace (pt * DEC / supply <? P256) with true by (symmetry; apply Z.ltb_lt; apply Hb; lia). cbn [bind].
+  replace (amount =? 0) with false by (symmetry; apply Z.eqb_neq; lia).
+  replace (dt * DEC / amount <? P256) with true by (symmetry; apply Z.ltb_lt; apply Hb; lia). cbn [bind].
+  replace (pt * DEC / supply * (DEC - t) / DEC <? P256) with true by (symmetry; apply Z.ltb_lt; apply Hm; apply Hb; lia). cbn [bind].
+  replace (dt * DEC / amount <? pt * DEC / supply * (DEC - t) / DEC) with false by (symmetry; apply Z.ltb_ge; lia).
+  reflexivity.
+Qed.
